@@ -2,7 +2,7 @@ import ast
 import keyword
 import re
 import unicodedata
-from collections.abc import MutableMapping
+from collections.abc import Collection, MutableMapping
 from typing import Union
 
 
@@ -51,7 +51,19 @@ def sanitize_variable_names(
         The sanitized expression.
     """
 
-    expr_parts = peekable_iter(UNQUOTED_BACKTICK_MATCHER.split(expr))
+    raw_parts = UNQUOTED_BACKTICK_MATCHER.split(expr)
+
+    # Identifiers that are written out in the (unquoted) code itself: an alias
+    # must never capture one of them (e.g. "`c d` - c_d").
+    written: set[str] = set()
+    in_backticks = False
+    for raw_part in raw_parts:
+        if raw_part == "`":
+            in_backticks = not in_backticks
+        elif not in_backticks and raw_part[:1] not in ("'", '"', "\\"):
+            written.update(re.findall(r"[^\W\d]\w*", raw_part))
+
+    expr_parts = peekable_iter(raw_parts)
 
     sanitized_expr = []
 
@@ -65,7 +77,9 @@ def sanitize_variable_names(
                 sanitized_expr.append(f"`{variable_name}")
             else:
                 next(expr_parts)
-                new_name = sanitize_variable_name(variable_name, env, template=template)
+                new_name = sanitize_variable_name(
+                    variable_name, env, template=template, reserved=written
+                )
                 while aliases.get(new_name, variable_name) != variable_name:
                     # Distinct names must never share a sanitized alias.
                     new_name += "_"
@@ -80,7 +94,11 @@ def sanitize_variable_names(
 
 
 def sanitize_variable_name(
-    name: str, env: MutableMapping, *, template: str = "{}"
+    name: str,
+    env: MutableMapping,
+    *,
+    template: str = "{}",
+    reserved: Collection[str] = (),
 ) -> str:
     """
     Generate a valid Python variable name for variable identifier `name`.
@@ -92,6 +110,8 @@ def sanitize_variable_name(
             created for the same value for the new variable name.
         template: A template to use for sanitized names, which is mainly useful
             if you need to undo the sanitization by string replacement.
+        reserved: Names that must not be used as the new name (e.g. identifiers
+            that appear elsewhere in the same expression).
     """
     if name.isidentifier() or keyword.iskeyword(name):
         return name
@@ -113,7 +133,7 @@ def sanitize_variable_name(
     # used as the key under which stateful transforms record their state, so a
     # random suffix would orphan that state on every re-use of a model spec.
     new_name = template.format(base_name)
-    while new_name in env:
+    while new_name in env or new_name in reserved:
         base_name += "_"
         new_name = template.format(base_name)
 
